@@ -164,7 +164,29 @@ def find_leaf(v, path):
     return cur
 
 
-ROUTES = ["from_dict", "ctor_dict", "binding", "nixlist", "source_setitem", "scope_setitem", "set_setitem"]
+ROUTES = ["from_dict", "ctor_dict", "binding", "nixlist", "source_setitem", "scope_setitem", "set_setitem",
+          "overwrite", "list_mutated_after_render"]
+
+
+def python_equal_twin(rng, value):
+    """A value that Python's == cannot tell from `value` but Nix can (True/1, 0.0/-0.0, 1.0/1, ...)."""
+    def twin(v):
+        if isinstance(v, bool):
+            return int(v)
+        if isinstance(v, int):
+            if v in (0, 1):
+                return bool(v) if rng.random() < 0.5 else float(v)
+            return float(v) if abs(v) < 2 ** 50 else v
+        if isinstance(v, float):
+            if v == 0.0:
+                return -v
+            return int(v) if v.is_integer() and abs(v) < 2 ** 50 else v
+        if isinstance(v, list):
+            return [twin(x) for x in v]
+        if isinstance(v, dict):
+            return {k: twin(x) for k, x in v.items()}
+        return v
+    return twin(value)
 
 
 def render(route, value):
@@ -188,6 +210,22 @@ def render(route, value):
         src = parse("{\n  first = 1;\n}\n")
         src.expr["k"] = value
         return src.rebuild(), "binding", {"first": 1, "k": value}
+    if route == "overwrite":
+        # the key already holds a value that Python's == equates with the new one
+        src = parse("{ }")
+        first = value[0]
+        src["k"] = first
+        src.rebuild()
+        src["k"] = value[1]
+        return src.rebuild(), "binding", {"k": value[1]}
+    if route == "list_mutated_after_render":
+        # render once, replace an element of the same list object in place, render again
+        lst = NixList(list(value[0]))
+        holder = AttributeSet(values=[Binding(name="k", value=lst)], multiline=True)
+        holder.rebuild()
+        for i, x in enumerate(value[1]):
+            lst.value[i] = x
+        return holder.rebuild(), "binding", {"k": list(value[1])}
     if route == "scope_setitem":
         src = parse("{ }")
         src.expr.scope["k"] = value
@@ -217,6 +255,14 @@ def run_shard(spec):
             value = gen_dict(rng)
         elif route == "nixlist":
             value = gen_list(rng, 1)
+        elif route == "overwrite":
+            v2 = gen_value(rng) if rng.random() < 0.5 else rng.choice(
+                [True, False, 0, 1, 0.0, -0.0, 1.0, [1, 0], [True, False], {"n": 1.0}, {"n": 1}, [0.0], [-0.0], 2, 2.0])
+            value = (python_equal_twin(rng, v2) if rng.random() < 0.7 else gen_value(rng), v2)
+        elif route == "list_mutated_after_render":
+            a = gen_list(rng, 1) or [1]
+            b = [gen_list(rng, 2) if rng.random() < 0.4 else gen_scalar(rng) for _ in a]
+            value = (a, b)
         else:
             value = gen_value(rng)
         wal(f"{route} {value!r}"[:3000])
